@@ -54,6 +54,20 @@ func GetGettyClientHandlerInstance() *gettyClientHandler {
 	return clientHandler
 }
 
+var (
+	sessionOpenHooks []func(send func(msg interface{}) error)
+	sessionOpenLock  sync.RWMutex
+)
+
+// RegisterOnSessionOpen registers a function that is called for every session the client opens to a
+// coordinator, at start-up and after a reconnect, once the client has announced itself as transaction manager
+// on it. The function is handed a sender that writes to that very session.
+func RegisterOnSessionOpen(hook func(send func(msg interface{}) error)) {
+	sessionOpenLock.Lock()
+	defer sessionOpenLock.Unlock()
+	sessionOpenHooks = append(sessionOpenHooks, hook)
+}
+
 func (g *gettyClientHandler) OnOpen(session getty.Session) error {
 	log.Infof("Open new getty session ")
 	sessionManager.registerSession(session)
@@ -70,6 +84,16 @@ func (g *gettyClientHandler) OnOpen(session getty.Session) error {
 			log.Errorf("OnOpen error: {%#v}", err.Error())
 			sessionManager.releaseSession(session)
 			return
+		}
+		// whoever has more to tell a coordinator that has just been (re)connected, e.g. the resource
+		// managers which resources they manage
+		sessionOpenLock.RLock()
+		hooks := append([]func(send func(msg interface{}) error){}, sessionOpenHooks...)
+		sessionOpenLock.RUnlock()
+		for _, hook := range hooks {
+			hook(func(msg interface{}) error {
+				return GetGettyRemotingClient().sendAsyncRequestOn(session, msg)
+			})
 		}
 	}()
 
